@@ -59,6 +59,18 @@ def _cycle(body, kind):
     return m.group(1) == "return0"
 
 
+def guarded_sites(repo):
+    """codes named in an `ERRORis_enabled( CODE )` anywhere in src/express outside error.c"""
+    import glob
+    guarded = []
+    for path in sorted(glob.glob(os.path.join(repo, "src/express/*.c"))):
+        if os.path.basename(path) == "error.c":
+            continue
+        for mg in re.finditer(r"ERRORis_enabled\s*\(\s*(\w+)\s*\)", _strip(open(path).read())):
+            guarded.append(mg.group(1))
+    return sorted(set(guarded))
+
+
 def extract(repo):
     rd = lambda p: _strip(open(os.path.join(repo, p)).read())
     res = rd("src/express/resolve.c")
@@ -112,6 +124,22 @@ def extract(repo):
             raise ValueError(f"SCOPEfind_for_rename: statement `{nm}` not found where the model expects it: ...{ffr[pos:pos + 160]}")
     uselist_fallback = "uselist" in found
     skips_null = found["full-use"].group("skip") is not None
+    # every place outside error.c where the front end asks ERRORis_enabled( CODE ): the check or side effect behind it depends
+    # on the -w/-i switches, so C20 needs the code to be un-switchable (severity above WARNING) and an input shape per site
+    guarded = guarded_sites(repo)
+    # line numbers: `yylineno` is a zero-initialised global; PARSERrun may (re)set it for every file it scans
+    prun = _body(exp, r"\bstatic\s+Express\s+PARSERrun\s*\(\s*char\s*\*\s*filename\s*,\s*FILE\s*\*\s*fp\s*\)\s*\{")
+    ml = re.search(r"\byylineno\s*=\s*(\d+)\s*;", prun)
+    line_reset, line_base = (True, int(ml.group(1))) if ml else (False, 0)
+    if not ml:
+        py = rd("src/express/expparse.y")
+        if not re.search(r"^\s*int\s+yylineno\s*;", py, re.M):
+            raise ValueError("expparse.y: `int yylineno;` (zero-initialised line counter) not found")
+    # the SUBTYPE_RESOLVE report: its format has three conversions (%s %s %d)
+    msr = re.search(r"ERRORreport_with_symbol\s*\(\s*SUBTYPE_RESOLVE\s*,\s*&ent->symbol\s*,\s*expr->symbol\.name\s*,\s*(sym->name\s*,\s*)?sym->line\s*\)", res)
+    if not msr:
+        raise ValueError("resolve.c: the SUBTYPE_RESOLVE report is not in the expected form")
+    subtype_resolve_name = msr.group(1) is not None
     bi = _body(exp, r"\bvoid\s+BUILTINSinitialize\s*\(\s*\)\s*\{")
     builtins = re.findall(r"(?:funcdef|procdef)\s*\(\s*\"(\w+)\"\s*,\s*(\d+)", bi)
     if len(builtins) < 20:
@@ -126,7 +154,14 @@ def extract(repo):
            "/-- `SCOPEfind_for_rename` falls back to scanning the exporting schema's not-yet-processed `uselist` -/",
            f"def renameUselistFallback : Bool := {'true' if uselist_fallback else 'false'}",
            "/-- `SCOPEfind_for_rename` skips the NULL entry a failed `USE FROM <schema>;` leaves in `use_schemas` (else: crash) -/",
-           f"def useSchemasSkipsNull : Bool := {'true' if skips_null else 'false'}", "",
+           f"def useSchemasSkipsNull : Bool := {'true' if skips_null else 'false'}",
+           "/-- the codes some `ERRORis_enabled( CODE )` outside error.c consults -/",
+           "def guardedCodeNames : List String := [" + ", ".join(f'"{g}"' for g in guarded) + "]",
+           "/-- first line number of a file, and whether the counter restarts for every file that is scanned -/",
+           f"def lineBase : Nat := {line_base}",
+           f"def lineResetPerFile : Bool := {'true' if line_reset else 'false'}",
+           "/-- the SUBTYPE_RESOLVE report passes the name of the non-entity between the subtype name and the line -/",
+           f"def subtypeResolvePassesName : Bool := {'true' if subtype_resolve_name else 'false'}", "",
            "/-- `BUILTINSinitialize`: (name, parameter count) -/",
            "def builtins : List (String × Nat) := [" + ", ".join(f'("{n}", {c})' for n, c in builtins) + "]",
            "", "end StepModel.Generated.ResolveGen", ""]
